@@ -430,7 +430,7 @@ pub fn run_c17(cx: &Cx) -> PropResult {
     let mut r = PropResult::new(
         acc,
         "exploration",
-        "(1) exhaustive: every Unicode scalar value as a char (1 112 064 values): code unit bytes up to U+FFFF, Err(UnsupportedCharacter(c)) above; (2) generated (type, value) cases over the built-in vocabulary and derived declarations with non-BMP chars and transient constructors allowed at any depth, through six sinks and the size calculator: Ok(bytes == reference) or the documented error, identical on every sink, no unwind; (3) serialize_iterator over iterators with exact size hints of i32::MAX, i32::MAX+1, u32::MAX, usize::MAX and random values beyond (expected LengthTooLarge), lying exact hints and inexact hints (byte count per the format); (4) Vec<()>, &[()] and Rc<[()]> of up to 3*10^9 elements; (5) declarations whose evolution metadata names unknown fields (expected UnknownFieldReferenceInEvolutionStep(name)); thorough adds a 2^32-byte Vec<u8> / Bytes and a 2^31-byte String. The 254-step declaration is part of C02's compiled batch. Non-trivial = the value is unsupported (an error is the expected result); supported values are the control.",
+        "(1) exhaustive: every Unicode scalar value as a char (1 112 064 values): code unit bytes up to U+FFFF, Err(UnsupportedCharacter(c)) above; (2) generated (type, value) cases over the built-in vocabulary and derived declarations with non-BMP chars and transient constructors allowed at any depth, through six sinks and the size calculator: Ok(bytes == reference) or the documented error, identical on every sink, no unwind; (3) serialize_iterator over iterators with exact size hints of i32::MAX, i32::MAX+1, u32::MAX, usize::MAX and random values beyond (expected LengthTooLarge), lying exact hints and inexact hints (byte count per the format); (4) Vec<()>, &[()] and Rc<[()]> of up to 3*10^9 elements; (5) declarations whose evolution metadata names unknown fields (expected UnknownFieldReferenceInEvolutionStep(name)); thorough adds a 2^32-byte Vec<u8> / Bytes and a 2^31-byte String. The 254-step declaration is part of C02's compiled batch. Quick tier too: a &str of exactly 2^31 bytes (Err(LengthTooLarge)) and of 2^31 - 1 bytes (Ok) over untouched zeroed memory, counted by the size calculator. Non-trivial = the value is unsupported (an error is the expected result); supported values are the control.",
     );
     r.assumptions = vec!["known finding F14 (DateTime<FixedOffset> with unrepresentable local time) is excluded by construction: the value generators only build datetimes whose local time is representable".into()];
     known_f14(&mut r);
